@@ -40,6 +40,10 @@ def perfect_matchings(num: list[int] | int | np.ndarray) -> np.ndarray:
     if isinstance(num, list):
         num = np.array(num)
 
+    # No objects: the empty matching is the only perfect matching (and the recursion below would never end).
+    if len(num) == 0:
+        return np.zeros((1, 0), dtype=int)
+
     # Base case, `num = 2`: only one perfect matching.
     if (len_num := len(num)) == 2:
         return num
